@@ -74,7 +74,7 @@ def mask_field(typ, payload):
     return payload
 
 
-def stream_map(buf, drop_walltime=True):
+def stream_map(buf, drop_walltime=True, drop_funcptr=True):
     """One full snapshot stream (as produced by save_to_stream / a one-snapshot file)."""
     if len(buf) < 64:
         raise FormatError("shorter than header")
@@ -83,7 +83,7 @@ def stream_map(buf, drop_walltime=True):
     for typ, payload in fields:
         if drop_walltime and typ in T_WALLTIME:
             continue
-        if typ == T_FUNCPTR:
+        if typ == T_FUNCPTR and drop_funcptr:
             continue    # "callbacks were set" warning flag; callbacks are re-attached by the user, not persisted
         if typ in m:
             raise FormatError("duplicate field %d" % typ)
